@@ -110,7 +110,7 @@ func Print(s Sequence, p Positions, options ...Option) (
 func fromSequenceWithPositions(
 	s Sequence, p Positions, consumer consume2.Consumer[Digit]) {
 	iter := p.Ranges()
-	for pr, ok := iter(); ok; pr, ok = iter() {
+	for pr, ok := iter(); ok && consumer.CanConsume(); pr, ok = iter() {
 		consume2.FromGenerator(
 			s.WithStart(pr.Start).WithEnd(pr.End).Iterator(), consumer)
 	}
